@@ -146,5 +146,37 @@ PROPS = {
         "note": "Float results are not theorems (hardware arithmetic); 'to within floating-point rounding' is checked against big.Rat on every generated cell.",
         "assumptions": ["IEEE-754 binary64 arithmetic; float64(uint64) conversion exact below 2^53"],
     },
+    "C13": {
+        "title": "Transient end-of-file or read timeouts on the input lose and duplicate nothing",
+        "design_ref": "DESIGN.md §7 C13",
+        "technique": "Lean 4 proof (read loop as a step function over a script of read results and an arbitrary clock oracle; induction on the script) + skeleton tie + differential correspondence with a scripted io.Reader and real tolerances",
+        "text": "Kernel-checked theorems for every script of read results, every tolerance and EVERY clock: the loop forwards exactly the bytes supplied before its stop point, once and in order; isolated EOF/timeout "
+                "results with a non-zero tolerance are invisible (the delivered messages equal those of the uninterrupted stream, even inside a frame); a zero tolerance or any other error stops at once; persisting failures "
+                "stop; whatever was received is still delivered losslessly (with C02). The skeleton of Handle (unbuffered channel, defer close, framing goroutine) is regenerated and pinned. Tied to the real Handle with a scripted "
+                "reader under bufio and real sleeps.",
+        "note": "Real clock and sleep behaviour (time.Now monotonicity, Sleep duration) is outside the model: the theorems quantify over all clock readings; the harness uses tolerances with wide margins (1 vs 80 ms, 15 vs 3 ms).",
+        "assumptions": ["bufio.Reader returns an underlying read error once and then retries the underlying reader", "the byte channel delivers bytes in FIFO order"],
+    },
+    "C15": {
+        "title": "Decoding and display are deterministic and free of hidden state",
+        "design_ref": "DESIGN.md §7 C15",
+        "technique": "Lean 4 proof (decoders are functions of the frame only; time lines never touch type/raw) + extracted list of package-level variables and writes to them (none outside init) + differential correspondence across histories and concurrent handlers",
+        "text": "Kernel-checked theorems: type, raw bytes and framing verdict of GetMessage are independent of the handler state (i.e. of all earlier frames); non-MSM messages are fully state independent; full decoding "
+                "is a function of (type, raw) alone; the time lines never change type or raw bytes. The faithfulness of this functional shape is the regenerated tie: no package-level variable of any library package is written "
+                "outside init. PARTIAL for aliasing and data races (runtime facts): checked by decoding each frame first / after others / in reverse / by four concurrent handlers, displaying twice, and modifying one consumer's copy.",
+        "note": "'What another consumer does with its copy' is read as using the message API and its own struct fields (DESIGN §9), not writing through the shared RawData backing array.",
+        "assumptions": ["Go value semantics of struct copies; no data race in the exercised schedules (thorough tier runs under -race)"],
+    },
+    "C18": {
+        "title": "The recent-message queue always holds the last N messages in arrival order",
+        "design_ref": "DESIGN.md §7 C18",
+        "technique": "Lean 4 proof (eviction loop = drop, window invariant by induction on the additions, any N >= 1) + locking skeleton tie + differential correspondence (exhaustive op patterns, long runs) + linearizability check of concurrent histories",
+        "text": "Kernel-checked theorems for every capacity N >= 1 and every sequence of additions: a snapshot is exactly the last min(N, added) messages in order, the queue never holds more than N, snapshots interleaved with "
+                "additions see contiguous runs. Concurrency: Add runs under the write lock and GetMessages under the read lock of one RWMutex and nothing else touches the state (regenerated tie), so concurrent histories are "
+                "sequential histories in lock order; the real-time clause is PARTIAL (sync.RWMutex trusted) and checked on concurrent histories of the real queue: every snapshot must be a contiguous run ending between the "
+                "additions completed before it was invoked and those begun before it returned.",
+        "note": "Capacity <= 0 is outside the property (N >= 1). Index overflow of NextIndex (after 2^63 additions) is not modelled.",
+        "assumptions": ["sync.RWMutex provides writer/reader exclusion"],
+    },
 }
 NOT_APPLICABLE = {}
